@@ -46,6 +46,9 @@ Next == IF "flush" \in Acts THEN RStep \/ Flush ELSE Step
 Spec == Init /\ [][Next]_vars
 
 View == st
+\* history-sensitive cover: states reached by paths of different length are explored separately, so that
+\* hidden history (ids, caches, slice aliasing) behind one abstract state is exercised too
+ViewDepth == <<st, Len(hist)>>
 
 StateInv == StateProps(st)
 InvTypeOK == TypeOK(st)
